@@ -651,7 +651,36 @@ func mutate(t *rapid.T, d []byte) []byte {
 			d = append(d, rapid.Byte().Draw(t, "b"))
 			continue
 		}
-		switch rapid.IntRange(0, 13).Draw(t, "mut") {
+		switch rapid.IntRange(0, 15).Draw(t, "mut") {
+		case 14, 15: // overwrite the bits from a drawn bit position on with the Exp-Golomb codeword of a hostile value
+			v := rapid.SampledFrom([]uint64{1<<32 - 1, 1<<32 - 2, 1 << 31, 1<<31 - 1, 1 << 24, 1 << 16, 65535, 4096, 255, 248, 64, 32}).Draw(t, "ue")
+			p := rapid.IntRange(0, len(d)*8-1).Draw(t, "bit")
+			x := v + 1
+			nb := 0
+			for y := x; y > 0; y >>= 1 {
+				nb++
+			}
+			code := make([]byte, 0, 2*nb-1)
+			for i := 0; i < nb-1; i++ {
+				code = append(code, 0)
+			}
+			for i := nb - 1; i >= 0; i-- {
+				code = append(code, byte(x>>uint(i))&1)
+			}
+			for len(d)*8 < p+len(code) && len(d) < 64 {
+				d = append(d, 0x80)
+			}
+			for i, b := range code {
+				q := p + i
+				if q/8 >= len(d) {
+					break
+				}
+				if b == 1 {
+					d[q/8] |= 1 << uint(7-q%8)
+				} else {
+					d[q/8] &^= 1 << uint(7-q%8)
+				}
+			}
 		case 12, 13: // a 16/32-bit field that looks like the length of the LAST element (it points within 8 bytes of the
 			// end of the input) is made to point 1..3 bytes past the end, or exactly at it
 			type cand struct{ p, w, rest int }
